@@ -146,11 +146,13 @@ func drawCalib(t *rapid.T) c16Calib {
 	case "absent":
 		return c16Calib{m: dm, d: dd, valid: true, checkVal: true, desc: "absent"}
 	case "valid", "negative":
-		m := rapid.SampledFrom([]float64{1, 2, 1000, 2000, 0.5, 1500.25, 3}).Draw(t, "mult")
+		// incl. values that 32-bit floats cannot hold (decimal fractions, integers above 2^24) and arbitrary ones
+		m := rapid.SampledFrom([]float64{1, 2, 1000, 2000, 0.5, 1500.25, 3, 0.7, 1.1, 16777217, 0.001, 123456789.125,
+			rapid.Float64Range(1e-6, 1e9).Draw(t, "anyMult")}).Draw(t, "mult")
 		if kind == "negative" {
 			m = -m
 		}
-		d := rapid.SampledFrom([]float64{1, 1000, 3, 0.25, 7}).Draw(t, "div")
+		d := rapid.SampledFrom([]float64{1, 1000, 3, 0.25, 7, 0.3, 1.1, 16777217, rapid.Float64Range(1e-6, 1e9).Draw(t, "anyDiv")}).Draw(t, "div")
 		s := strconv.FormatFloat(m, 'g', -1, 64) + "\n" + strconv.FormatFloat(d, 'g', -1, 64)
 		switch rapid.IntRange(0, 3).Draw(t, "ending") {
 		case 0:
